@@ -203,10 +203,10 @@ func run(id, tier string) int {
 	var knownSeen []string
 	for _, v := range total.Violations {
 		if k := core.MatchKnown(known, id, v.Finding); k != nil {
-			if !seenKnown[v.Finding] {
-				seenKnown[v.Finding] = true
-				fmt.Printf("KNOWN-FINDING: property=%s %s [%s] (%d cases, e.g. %s)\n", id, k.What, v.Finding, total.ViolCount[v.Finding], v.Case)
-				knownSeen = append(knownSeen, v.Finding)
+			if !seenKnown[k.Finding] {
+				seenKnown[k.Finding] = true
+				fmt.Printf("KNOWN-FINDING: property=%s %s [%s] (e.g. case %s)\n", id, k.What, k.Finding, v.Case)
+				knownSeen = append(knownSeen, k.Finding)
 			}
 			continue
 		}
